@@ -205,6 +205,52 @@ Definition W_tx_volumes_first : list log := [ mk_new 1 0 100 (mk_tx 0 100 0 [mk_
 (* F-C04i: one account moves two assets in one transaction: only one asset survives in the jsonb *)
 Definition W_tx_volumes_collapse : list log := [ mk_new 1 0 100 (mk_tx 0 100 0 [mk_p 0 1 5 10; mk_p 0 1 6 5]) ].
 
+(* ---- GetAggregatedBalances --------------------------------------------------------------------------------------------------------- *)
+Lemma replay_aggregated_lookup : forall Ls pit s,
+  agg_lookup (vols_of (replay_aggregated Ls pit)) s =
+  option_map vol_of (some_vol (filter (fun m => before_ok pit (r_ins m) && N.eqb (r_asset m) s) (replay_moves Ls))).
+Proof.
+  intros. unfold agg_lookup, replay_aggregated. rewrite find_per_asset by apply sort_dedup_NoDup.
+  unfold replay_assets. destruct (existsb (N.eqb s) (sort_dedup (map r_asset (replay_moves Ls)))) eqn:EX.
+  - destruct (some_vol _); reflexivity.
+  - assert (filter (fun m => before_ok pit (r_ins m) && N.eqb (r_asset m) s) (replay_moves Ls) = []) as ->; [|reflexivity].
+    apply filter_none. intros m Hm. destruct (N.eqb_spec (r_asset m) s) as [E|E]; [|apply andb_false_r].
+    exfalso. assert (existsb (N.eqb s) (sort_dedup (map r_asset (replay_moves Ls))) = true) as C; [|congruence].
+    apply existsb_exists. exists s. split; [|apply N.eqb_refl]. apply sort_dedup_in. rewrite <- E. apply in_map. assumption.
+Qed.
+
+Lemma c04_aggregate_partial : forall L l d pit s,
+  run L = Some d ->
+  no_self_transfer_on_new_account (ledger_logs l L) = true ->
+  (pit <> None -> dates_monotone (ledger_logs l L) = true) ->
+  agg_lookup (aggregated_volumes d l pit) s = agg_lookup (vols_of (replay_aggregated (ledger_logs l L) pit)) s.
+Proof.
+  intros L l d pit s H Hn Hd. destruct (run_absA L d l H) as [W RA].
+  rewrite (aggregated_volumes_abs d l pit W), RA, replay_aggregated_lookup. apply A_aggregated_lookup; assumption.
+Qed.
+
+(* what GET /aggregate/balances reports is zero for every asset: inputs = outputs over the whole ledger *)
+Lemma c04_aggregate_balanced : forall L l d pit s v,
+  run L = Some d ->
+  no_self_transfer_on_new_account (ledger_logs l L) = true ->
+  (pit <> None -> dates_monotone (ledger_logs l L) = true) ->
+  agg_lookup (aggregated_volumes d l pit) s = Some v -> exists x, v = (Some x, Some x).
+Proof.
+  intros L l d pit s v H Hn Hd E. rewrite (c04_aggregate_partial L l d pit s H Hn Hd), replay_aggregated_lookup in E.
+  destruct (some_vol _) as [w|] eqn:ES; [|discriminate]. cbn in E. inversion E; subst v.
+  unfold some_vol in ES. destruct (filter _ (replay_moves (ledger_logs l L))) as [|x t] eqn:EF; [discriminate|]. inversion ES; subst w.
+  pose proof (replay_double_entry (ledger_logs l L) (fun t a => before_ok pit t && N.eqb a s)) as DE. cbn zeta beta in DE.
+  rewrite EF in DE. exists (fst (rvol (x :: t))). unfold vol_of. rewrite DE. reflexivity.
+Qed.
+
+Lemma c04_aggregate_refuted : exists L l d s v,
+  run L = Some d /\ agg_lookup (aggregated_volumes d l None) s = Some v /\ v = (Some 7, Some 0).
+Proof.
+  exists W_self_transfer, 1%N. destruct (run W_self_transfer) as [d|] eqn:E; [|vm_compute in E; discriminate].
+  exists d, 5%N, (Some 7, Some 0). split; [reflexivity|]. vm_compute in E. inversion E; subst d. split; reflexivity.
+Qed.
+
+
 Lemma c04_volumes_refuted : exists L l d a,
   run L = Some d /\ get_all_account_volumes d l a None <> vols_of (replay_volumes (ledger_logs l L) a None).
 Proof.
